@@ -111,8 +111,11 @@ def multiple_lengths(prefix):
         c.local_types.update(best_adapter=OptT(IndexedAdapterT))
         c.requires(lengths_positive="forall(t, 0, len(self._lengths), self._lengths[t] >= 1)",
                    lengths_strictly_decreasing="forall(t, 1, len(self._lengths), self._lengths[t] < self._lengths[t - 1])",
+                   lengths_strictly_decreasing_pairwise="forall(t, 0, len(self._lengths), forall(u, t + 1, len(self._lengths), self._lengths[u] < self._lengths[t]))",
                    matches_at_most_key_length="forall_keys_m(self)")
         # ghost: the best (most matches, then fewest errors) among the index hits examined so far
+        c.ghost("g_ex = defaultdict(int)", at_start=True)
+        c.ghost("g_ex[__k1] = 1", before="affix = self._make_affix(affix, length)")
         c.ghost("g_m = -1", at_start=True)
         c.ghost("g_e = 1000", at_start=True)
         for site in ("adapter, e, m = result", "adapter, e, m = self._index[affix]"):
@@ -123,9 +126,12 @@ def multiple_lengths(prefix):
             "0 <= __k1 <= len(self._lengths)",
             "best_m == -1 or (1 <= best_length <= len(sequence) and not is_none(best_adapter))",
             "best_m == g_m and best_e == g_e",
+            "forall(t, 0, __k1, implies(self._lengths[t] <= len(sequence), g_ex[t] == 1))",
         ])
         c.ensures(
             coordinates_lie_inside_the_read="implies(not is_none(result), 0 <= val(result).rstart <= val(result).rstop <= len(sequence))",
+            every_indexed_length_that_fits_the_read_and_could_still_win_is_looked_up=
+            "forall(t, 0, len(self._lengths), implies(self._lengths[t] <= len(sequence) and self._lengths[t] >= (val(result).score if not is_none(result) else 0), g_ex[t] == 1))",
             most_matches_then_fewest_errors_among_the_examined_hits="implies(not is_none(result), val(result).score == g_m and val(result).errors == g_e)",
             removed_affix_has_an_indexed_length="implies(not is_none(result), val(result).rstop - val(result).rstart >= 1 and "
                                                 + ("val(result).rstart == 0" if prefix else "val(result).rstop == len(sequence)") + ")",
